@@ -251,7 +251,17 @@ impl LspModule {
             }
             Some(line_span) => line_span,
         };
-        let current_pos = std::cmp::min(line_span.begin() + col, line_span.end());
+        // `col` is an LSP character offset (UTF-16 code units), `Pos` is a byte offset.
+        let mut byte_col = 0u32;
+        let mut utf16_col = 0u32;
+        for c in self.ast.codemap().source_span(line_span).chars() {
+            if utf16_col >= col {
+                break;
+            }
+            utf16_col += c.len_utf16() as u32;
+            byte_col += c.len_utf8() as u32;
+        }
+        let current_pos = std::cmp::min(line_span.begin() + byte_col, line_span.end());
 
         // Finalize the results after recursing down from and back up to the top level scope.
         match Self::find_definition_in_scope(&scope, current_pos) {
